@@ -781,7 +781,7 @@ func aliasClashProgram(r *rand.Rand, name, kind string, variant int) *prog {
 	p.RenameA = map[string]string{pRen: "rr"}
 	p.RenameB = map[string]string{pPlain: "pl", pV2: "vv", pThird: "thr", "context": "cx"}
 	if variant < 0 {
-		variant = r.IntN(7)
+		variant = r.IntN(12)
 	}
 	nm := func(s string) string { return pick(r, []string{s, "_", ""}) }
 	one := func(n string, t *gty) []gpar {
@@ -817,6 +817,34 @@ func aliasClashProgram(r *rand.Rand, name, kind string, variant int) *prog {
 	case 5: // two on-demand imports of one name: a/util through a method declared in b.go, then b/util
 		orig.Methods = []gmeth{{Name: "Own"}, {Name: "InB", File: 1, Ps: one("x", utilX)}}
 		orig.Embeds = []gembed{{T: named(pUses, "UE")}}
+	case 7: // one path imported twice: `util ".../sib/plain"` then `".../sib/plain"`: the later spec is the
+		// handler's entry, the earlier one is kept aside (ImportHandler.shadowed) and its name stays bound
+		p.RenameA = map[string]string{pRen: "rr", pPlain: "util"}
+		p.DoubleA = map[string]string{pPlain: "-"}
+		pt := named(pPlain, "T")
+		orig.Methods = []gmeth{{Name: "Own", Ps: []gpar{par(nm("a"), pt)}, Rs: one("", slice(pt))},
+			{Name: "Own2", Ps: one("g", named(pPlain, "G", pt))}}
+		orig.Embeds = []gembed{{T: named(pUses, "UE")}}
+	case 8: // twice under two renames, the second equal to the package name of an on-demand import
+		p.RenameA = map[string]string{pRen: "rr", pV2: "far"}
+		p.DoubleA = map[string]string{pV2: "vv2"}
+		vt := named(pV2, "V")
+		orig.Methods = []gmeth{{Name: "Own", Ps: []gpar{par("a", vt), par("_", ptr(vt))}, Rs: one("", named(pV2, "Opt", vt))}}
+		orig.Embeds = []gembed{{T: named(pUses, "UF"), Ptr: r.IntN(2) == 0}}
+	case 9: // the ORDER of activation: a method declared in a file that sorts before a.go mentions b/util
+		// (on demand, rendered first); a later method of a.go then activates the file's own import util = a/util
+		orig.Methods = []gmeth{{Name: "First", File: 2, Ps: one("t", named(pBUtil, "T"))},
+			{Name: "Own", Ps: one("x", utilX), Rs: one("", slice(utilX))}}
+		if r.IntN(2) == 0 {
+			orig.Embeds = []gembed{{T: named(pUses, "UE")}}
+		}
+	case 10: // the same order against a rename: realname = ren in a.go, package realname (odd-dir) first
+		p.RenameA = map[string]string{pRen: "realname"}
+		orig.Methods = []gmeth{{Name: "First", File: 2, Ps: one("o", ptr(named(pOdd, "Odd"))), Rs: one("", named(pOdd, "OddI"))},
+			{Name: "Own", Ps: one("r", named(pRen, "R"))}}
+	case 11: // the reverse order (control): the file's import is active before the on-demand one arrives
+		orig.Methods = []gmeth{{Name: "Own", Ps: one("x", utilX)}, {Name: "Second", File: 1, Ps: one("t", named(pBUtil, "T"))}}
+		p.RenameB = map[string]string{}
 	default: // all of them at once, and the interface
 		p.RenameA = map[string]string{pRen: "realname"}
 		p.Structs = append(p.Structs, gstruct{Name: "far"})
